@@ -304,6 +304,7 @@ func (c07) Run(e *Env) {
 		order[i], order[j] = order[j], order[i]
 	}
 	e.Event("batches=%d series=%d order=%v", nBatches, nSeries, order)
+	e.State("batches=%d series=%d expected-series=%d", nBatches, nSeries, len(want))
 
 	switch e.Weighted("variant", []int{2, 3, 2, 2, 2, 3}) {
 	case 0: // pairwise merges in a tape-chosen bracketing
